@@ -973,8 +973,10 @@ def apply_fn(d, log, fnmap, out_lineno):
             raise Undecided('lost anchor: an R9 scan named by the contract of %s is no longer there' % d.spec)
     nlines = text.count('\n')
     first_line = src.count('\n', 0, it.sig_start) + 1
+    body_off = len(text) - len(body) - 1
     fnmap.append({'label': label, 'fn': name, 'source': file, 'source_line': first_line,
                   'gen_first': out_lineno, 'gen_last': out_lineno + nlines - 1,
+                  'body_first': out_lineno + text.count('\n', 0, body_off),
                   'spec': d.spec, 'new_calls': new_calls})
     log.taken.append({'item': d.spec, 'kind': 'fn', 'source_line': first_line, 'bytes': it.end - it.sig_start})
     return text
